@@ -145,7 +145,7 @@ prop('C20',
 
 prop('C02',
      modules=['WitnessVerif.Props.C02'],
-     scenarios=lambda tier: [sc('notemut')] + ([sc('hist', n=40)] * 2 if tier == 'quick' else [sc('notemut', n=12)] + [sc('hist', n=400)] * 6),
+     scenarios=lambda tier: [sc('notemut'), sc('cfgmap')] + ([sc('hist', n=40)] * 2 if tier == 'quick' else [sc('notemut', n=12)] + [sc('hist', n=400)] * 6),
      diverge={'U': {'accept', 'post', 'oracle'}},
      nontrivial=lambda u: u.get('class', '').startswith('mut.') or u.get('class', '').startswith('corrupt') or u.get('class', '').startswith('replay') or u.get('class') in ('crossLog', 'unknownLog', 'shape'),
      rule='mutation streams over one valid checkpoint per configuration (every k-th single-bit flip, every k-th truncation, line deletions/duplications/swaps/insertions of CR, TAB, NBSP, U+2028, 0xFF, 0x01, signature-block edits, cross-log and cross-origin replays with shared keys, unknown IDs) on a witness with 3 logs (two sharing a key), with and without stored state; monitor: accepted => the submitted bytes authenticate under the configured verifier and origin (verifier queries recorded from the real verifier)',
@@ -233,3 +233,18 @@ prop('C17',
      rule='every entry of the embedded omniwitness/logs.yaml and of omniwitness/logs_test.yaml (working tree) is loaded through yaml.Unmarshal, config.NewLog, LogConfig.AsLogMap and its feeder is started for one cycle without network (start-up errors before the first request are failures); compared with the model; synthetic configurations (valid, ECDSA, malformed keys, duplicates) validate the model of NewVerifier/AsLogMap; the Lean tables are regenerated from the YAML files on every run and the coherence theorem is re-checked by kernel evaluation',
      assumptions=['x509.ParsePKIXPublicKey and net/url are not modelled: covered by loading the shipped entries through the real functions'],
      exhaustive=True)
+
+prop('C12',
+     modules=['WitnessVerif.Props.C12'],
+     scenarios=lambda tier: [sc('isolation'), sc('cfgmap'), sc('lib'), sc('bastion', n=10 if tier == 'quick' else 100), sc('dist', n=150 if tier == 'quick' else 2000), sc('httpapi', n=10 if tier == 'quick' else 100)],
+     diverge={'ISO': None, 'CA': None, 'U': {'accept', 'post', 'oracle'}, 'H': {'status', 'post'}, 'DS': {'puts'}, 'A': None},
+     nontrivial_line=lambda k, line: k in ('ISO', 'CA'),
+     rule='per-log histories (honest chains with fork attempts, other logs\' checkpoints under this ID, stale requests; 2..5 logs of which three share a key) are run interleaved (random order-preserving merge) and each alone on fresh witnesses, outcomes and final text compared; synthetic configurations through AsLogMap/config.NewLog (duplicate origins, same key name with different keys, ECDSA and malformed keys) followed by cross-key submissions to the witness built from that map; IDs observed at the bastion lookup, the distributor path and the HTTP route compared with hex(sha256("o:"+origin)) computed in Lean',
+     exhaustive=False)
+
+prop('C16',
+     modules=['WitnessVerif.Props.C16'],
+     scenarios=lambda tier: [sc('httpapi')] * (2 if tier == 'quick' else 8),
+     diverge={'A': None, 'U': {'accept', 'post'}},
+     nontrivial_line=lambda k, line: k == 'A',
+     rule='histories of accepted and refused updates over 1..4 logs (IDs from log.ID) on in-memory, SQLite :memory: and SQLite file stores; after steps, GET checkpoint through the registered gorilla/mux handlers (httptest server) and through the bundled client for every known ID and for unknown / odd IDs (upper case, truncated, extended, -, _, ., %2F, empty, .., 200 characters, %00, non-ASCII, spaces), GET logs decoded and sorted; compared with the model and the monitors 200 => that log holds exactly these bytes, else 404, client maps 404 to ErrNotExist')
